@@ -466,12 +466,19 @@ FinishTask(w, panicked) ==
     Park([w EXCEPT !.tasks[tid].st = "done"], "exited", "task.end",
          [tid |-> tid, panicked |-> IF panicked THEN 1 ELSE 0])
 
+\* the scripted thunk goes on after its dispatch() has returned (and says so): by then the action is in
+\* the queue, ahead of anything dispatched from now on (C02)
+ThunkAfter(w) ==
+    Park(w, "w.after", "cb", [what |-> "after", who |-> WName(L(w).tid), st |-> <<>>, a |-> w.tasks[L(w).tid].a,
+                              rd |-> <<>>, effs |-> <<>>])
+
 MSent(w) ==
     LET ret == L(w).ret  a == L(w).a IN
     CASE ret = "disp" ->     \* store_impl.rs:545-547 / dispatcher.rs:28-36: unlock, map the result
             LET res == DispResult(w)
                 w1 == [w EXCEPT !.lk["tx"] = "-", !.h.ret = @ \cup {a}, !.h.res[a] = res] IN
             IF w.t \in Clients THEN OpEnd(w1, res)
+            ELSE IF w.tasks[L(w).tid].kind = "thunk" THEN ThunkAfter(w1)
             ELSE FinishTask(w1, w.tasks[L(w).tid].kind = "act" /\ res = "Err")   \* .expect(), l.413
       [] ret = "close" ->    \* store_impl.rs:509-510: drop(tx), unlock
             Goto([w EXCEPT !.chan["D"].alive = FALSE, !.lk["tx"] = "-"], "closed")
@@ -600,8 +607,9 @@ WDispatch(w, a) ==           \* dispatcher.rs:25-40 on a worker (guard: tx lock 
                         !.h.before = @ \cup {<<x, a>> : x \in w.h.ret}] IN
     IF w.chan["D"].open
     THEN StartSend([w1 EXCEPT !.lk["tx"] = w.t, !.h.sawOpen = @ \cup {a}], "D", a, "disp")
-    ELSE FinishTask([w1 EXCEPT !.h.ret = @ \cup {a}, !.h.res[a] = "Err"],
-                    w.tasks[L(w).tid].kind = "act")
+    ELSE IF w.tasks[L(w).tid].kind = "thunk"
+         THEN ThunkAfter([w1 EXCEPT !.h.ret = @ \cup {a}, !.h.res[a] = "Err"])
+         ELSE FinishTask([w1 EXCEPT !.h.ret = @ \cup {a}, !.h.res[a] = "Err"], TRUE)
 
 MWStart(w) ==                \* pc "w.start"
     LET tk == w.tasks[L(w).tid] IN
@@ -695,6 +703,7 @@ Micro(w) ==
       [] p = "w.new"     -> MTaskStart(w)
       [] p = "w.start"   -> MWStart(w)
       [] p = "w.cb"      -> MWCb(w)
+      [] p = "w.after"   -> FinishTask(w, FALSE)
       \* delivery threads
       [] p = "ch.new"    -> Park(w, "ch.wait", "chloop.wait", [ch |-> ChSub(w.t)])
       [] p = "ch.wait"   -> MChWait(w)
